@@ -1,4 +1,4 @@
-import NA.Proofs.C04Frame
+import NA.Proofs.C04Resume
 /-!
 # C04 — NSX approve converges to the Netspoc-equivalent gateway policies
 (and the NSX theorems of C07 / C08 / C10, names prefixed `nsx_`)
@@ -28,7 +28,7 @@ theorem nsx_group_equalize_converges (diff : Diff)
   groupCalls_converges diff hdiff S ga gb hfind hna hnb
 
 /-! Non-vacuity: a valid `diff` exists, and the three branches are reached. -/
-example : ∃ diff : Diff, ∀ n m eq, validScript n m eq (diff n m eq) = true := ⟨trivialDiff, trivialDiff_valid⟩
+example : ∃ diff : Diff, ∀ n m eq, validScript n m eq (diff n m eq) = true := ⟨prefixDiff, prefixDiff_valid⟩
 example : groupCalls trivialDiff ⟨"g", "id", "t", ["1", "2", "3"]⟩ ⟨"h", "id", "t", ["1", "2"]⟩ =
     [.patchExpr "g" "id" "t" ["1", "2"]] := by decide
 example : groupCalls trivialDiff ⟨"g", "id", "t", ["1", "2"]⟩ ⟨"h", "id", "t", ["2", "3"]⟩ =
@@ -106,7 +106,7 @@ theorem nsx_converges (diff : Diff) (hdiff : ∀ n m eq, validScript n m eq (dif
       NoLeftoverGroup S' T := by
   unfold accepted at hacc
   simp only [Bool.and_eq_true] at hacc
-  obtain ⟨⟨⟨⟨⟨⟨h1, h2⟩, h3⟩, h4⟩, h5⟩, h6⟩, _⟩ := hacc
+  obtain ⟨⟨⟨⟨⟨h1, h2⟩, h3⟩, h4⟩, h5⟩, h6⟩ := hacc
   exact plan_converges hdiff (storeFacts_of h1 h2) (targetFacts_of h3 h4) h5 h6 hab
 
 /-- C08 for NSX: every call of the script is accepted by a manager that enforces referential
@@ -144,8 +144,8 @@ def exTarget : Config :=
     groups := [⟨"Netspoc-g0", "id", "IPAddressExpression", ["10.1.1.10", "10.1.1.30"]⟩]
     services := [⟨"Netspoc-tcp_80", "b"⟩] }
 example : accepted exStore exTarget = true := by decide
-example : (plan trivialDiff (load exStore) exTarget).abort = none := by decide
-example : (plan trivialDiff (load exStore) exTarget).calls.length = 9 := by decide
+example : (plan prefixDiff (load exStore) exTarget).abort = none := by decide
+example : (plan prefixDiff (load exStore) exTarget).calls.length = 7 := by decide
 
 /-- C07 for NSX, the script (`nsx_scope`): every REST call addresses an object whose id carries
 the Netspoc prefix (rules live inside their policy) — by the load filter on the device side and
@@ -174,11 +174,75 @@ theorem nsx_scope_counterexample :
     ¬ ∀ c ∈ (plan trivialDiff (load {}) { policies := [⟨"my-policy", []⟩] }).calls, managed c.target = true := by
   decide
 
+/-- C08 for NSX, about the specification alone (`wf_preserved`): a call the strict manager
+accepts keeps the object store well-formed — unique ids per kind, unique rule ids per policy, no
+dangling reference. -/
+theorem nsx_store_wf_preserved {S S' : Store} {c : Call} (h : storeWF S = true) (hex : exec S c = .ok S') :
+    storeWF S' = true :=
+  storeWF_of_wf (exec_wf (wf_of_storeWF h) hex)
+
+/-- `nsx_prefix_wf`: after any prefix of the script the pair (manager, target) satisfies the side
+conditions of the end-to-end theorem again: the store is well-formed, address lists are still
+duplicate-free, and everything outside Netspoc's scope is as before. -/
+theorem nsx_prefix_wf (diff : Diff) (hdiff : ∀ n m eq, validScript n m eq (diff n m eq) = true)
+    (S : Store) (T : Config) (hacc : accepted S T = true) (k : Nat) (Sk : Store)
+    (hk : run S ((plan diff (load S) T).calls.take k) = some Sk) : accepted Sk T = true :=
+  prefix_accepted hdiff hacc k hk
+
+/-- C10 for NSX (`resume_converges`): cut the script after any number `k` of calls that took
+effect; a new run against the partially changed manager and the same target is accepted call by
+call and reaches a state equivalent to the target with no left-overs (provided the planner does
+not abort on the intermediate state). -/
+theorem nsx_resume_converges (diff : Diff) (hdiff : ∀ n m eq, validScript n m eq (diff n m eq) = true)
+    (S : Store) (T : Config) (hacc : accepted S T = true) (k : Nat) (Sk : Store)
+    (hk : run S ((plan diff (load S) T).calls.take k) = some Sk)
+    (habk : (plan diff (load Sk) T).abort = none) :
+    ∃ S', run Sk (plan diff (load Sk) T).calls = some S' ∧ Converged S' T ∧ ServicesConverged S' T ∧
+      NoLeftoverGroup S' T :=
+  nsx_converges diff hdiff Sk T (prefix_accepted hdiff hacc k hk) habk
+
+/-! Non-vacuity of the resume theorem: a cut after three of the seven calls of the example, the
+planner does not abort on the state reached, and its new script has four calls. -/
+example : ((run exStore ((plan prefixDiff (load exStore) exTarget).calls.take 3)).map fun Sk =>
+    ((plan prefixDiff (load Sk) exTarget).abort, (plan prefixDiff (load Sk) exTarget).calls.length)) =
+    some (none, 4) := by decide
+
+/-- "No change is reported only when the manager is already equivalent": an empty plan means the
+manager is equivalent to the target and carries no left-overs. -/
+theorem nsx_no_change_only_if_equivalent (diff : Diff)
+    (hdiff : ∀ n m eq, validScript n m eq (diff n m eq) = true) (S : Store) (T : Config)
+    (hacc : accepted S T = true) (hab : (plan diff (load S) T).abort = none)
+    (hnone : (plan diff (load S) T).calls = []) :
+    Converged S T ∧ ServicesConverged S T ∧ NoLeftoverGroup S T := by
+  obtain ⟨S', hrun, h⟩ := nsx_converges diff hdiff S T hacc hab
+  rw [hnone] at hrun
+  simp only [run, Option.some.injEq] at hrun
+  rw [← hrun] at h
+  exact h
+
+/-- The converse is false for arbitrary equivalent states (not for the ones an approve leaves
+behind, which the oracle checks on every case): a manager where two rules share one group while
+the target uses two groups with the same addresses is equivalent, yet the planner separates the
+groups (PUT of a group, PATCH of a rule). -/
+theorem nsx_equivalent_but_changed_example :
+    let S : Store :=
+      { policies := [⟨"Netspoc-v1", [{ id := "r1", src := groupPath "Netspoc-g0", dst := "10.1.1.1" },
+                                    { id := "r2", src := groupPath "Netspoc-g0", dst := "10.1.1.2" }]⟩]
+        groups := [⟨"Netspoc-g0", "id", "t", ["10.9.9.9"]⟩] }
+    let T : Config :=
+      { policies := [⟨"Netspoc-v1", [{ id := "r1", src := groupPath "Netspoc-g0", dst := "10.1.1.1" },
+                                    { id := "r2", src := groupPath "Netspoc-g1", dst := "10.1.1.2" }]⟩]
+        groups := [⟨"Netspoc-g0", "id", "t", ["10.9.9.9"]⟩, ⟨"Netspoc-g1", "id", "t", ["10.9.9.9"]⟩] }
+    accepted S T = true ∧ convergedB S T = true ∧
+      (plan prefixDiff (load S) T).calls.map (·.target) = ["Netspoc-g1", "Netspoc-v1"] := by
+  decide
+
 def obligations : List Lean.Name := [``nsx_converges, ``nsx_calls_executable, ``nsx_no_leftover_service,
   ``nsx_no_leftover_unused_group, ``nsx_group_equalize_converges, ``nsx_rules_converge,
   ``nsx_create_policy_converges, ``nsx_ids_unique, ``nsx_ids_unique_counterexample,
   ``addrDiff_perm, ``stepItems_spec, ``walk_of_valid, ``adaptGroup_spec, ``equalize_spec,
   ``overA_spec, ``overB_spec, ``planSvc_spec, ``plan_converges, ``nsx_scope, ``nsx_store_frame, ``nsx_frame,
-  ``nsx_scope_counterexample]
+  ``nsx_scope_counterexample, ``nsx_store_wf_preserved, ``nsx_prefix_wf, ``nsx_resume_converges,
+  ``nsx_no_change_only_if_equivalent, ``nsx_equivalent_but_changed_example]
 
 end NA.Nsx
